@@ -7,6 +7,15 @@ predefined entities only), followed by what `encoding/xml` + `DecodeElement(&Ent
 
   text ──lexAll──▶ tokens (+ "the text stopped being XML here") ──scanToks──▶ Trace
 
+OUTSIDE THE READER (it answers `err`, or differs from encoding/xml, there — nothing is claimed for such
+texts): carriage returns; `]` in text; CDATA sections; character references `&#…;`; directives with quoted `>` or nested brackets (DOCTYPE); entities other than the
+five predefined ones, entities in attribute values; DOCTYPE; namespace prefixes (`x:entry`) and a missing or
+overridden `xmlns` (the reader matches element names literally); non-ASCII element names; the typed
+attribute VALUES of Entry / SequenceType (dates, integers: the reader does not look at attribute values at
+all); declarations other than `version="1.0" encoding="UTF-8"`.  The five predefined entities are accepted in
+character data but not decoded (the documents of Spec/UniprotDoc have them between entries only, where the
+text is dropped).  Offsets are CHARACTER offsets (= byte offsets for ASCII texts).
+
 `scanToks` is a state machine over tokens (nesting check with a stack of open elements; an `<entry>`
 start tag opens a decoding of that element which collects the character data of its direct children
 `accession`, `name`, `sequence` — a child counts only when it is complete — and skips everything else,
@@ -37,8 +46,10 @@ inductive LexRes where
 def nameStart (c : Char) : Bool := c.isAlpha || c == '_' || c == ':'
 def nameChar (c : Char) : Bool := c.isAlphanum || c == '_' || c == ':' || c == '.' || c == '-'
 def isWs (c : Char) : Bool := c == ' ' || c == '\t' || c == '\n' || c == '\r'
-/-- characters XML 1.0 allows in a document -/
-def legalChar (c : Char) : Bool := 32 ≤ c.toNat || c == '\t' || c == '\n' || c == '\r'
+/-- characters of the subset: those XML 1.0 allows in a document, WITHOUT the carriage return (the decoder
+normalises CR and CR LF to LF, which the reader does not model) and without U+FFFE / U+FFFF (illegal) -/
+def legalChar (c : Char) : Bool :=
+  (32 ≤ c.toNat && c.toNat != 0xFFFE && c.toNat != 0xFFFF) || c == '\t' || c == '\n'
 /-- character data of the subset: legal characters, no markup start, no entity or CDATA-end -/
 def textChar (c : Char) : Bool := legalChar c && c != '<' && c != '&' && c != ']'
 def valueChar (q c : Char) : Bool := legalChar c && c != '<' && c != '&' && c != q
@@ -109,7 +120,13 @@ def nextTok : Str → LexRes
        | '-' :: '-' :: r2 => (match untilCommentEnd r2 with
          | some (b, rest) => .tok (.comment b) rest
          | none => .err)
-       | _ => .err)
+       | _ =>
+         -- a directive `<!…>` (what a damaged comment start turns into): passed over up to the first `>`
+         -- (quoted `>` and nested `<…>` inside directives, i.e. real DOCTYPEs, are outside the reader)
+         -- `<!-` not followed by `-` is an error; `<![` (CDATA) is outside the reader
+         (if r1.head? != some '-' && r1.head? != some '[' && r1.contains '>' then
+            .tok (.pi ('!' :: r1.takeWhile (fun x => x != '>'))) ((r1.dropWhile (fun x => x != '>')).drop 1)
+          else .err))
     | '/' :: r1 =>
       let n := r1.takeWhile nameChar
       if n.isEmpty || !(n.head?.map nameStart).getD false then .err else
